@@ -152,7 +152,7 @@ var spec = &hx.Spec[Case]{
 		"mode:pull", "pull:config-default", "pull:config-uncompressed", "pull:config-other-path", "pull:config-compressed-entry",
 		"pull:present", "pull:missing", "pull:other-format-only", "pull:corrupt",
 		"pull:have:both-formats", "pull:have:configured-format-only", "pull:have:other-format-only", "pull:have:none", "pull:have:corrupt",
-		"mode:sshpool", "ssh-pool:n=1", "ssh-pool:n=2", "ssh-pool:n=3", "ssh-pool:failures>pool-size", "ssh-pool:ok-after-failures>pool-size", "ssh-pool:sequential", "ssh-pool:concurrent",
+		"mode:sshpool", "ssh-pool:stress:n>=2", "ssh-pool:n=1", "ssh-pool:n=2", "ssh-pool:n=3", "ssh-pool:failures>pool-size", "ssh-pool:ok-after-failures>pool-size", "ssh-pool:sequential", "ssh-pool:concurrent",
 		"ssh-pool:further-request", "ssh-pool:close", "ssh-pool:request-on-dead-session",
 		"ssh-pool:answer:present", "ssh-pool:answer:missing", "ssh-pool:answer:invalid", "ssh-pool:answer:garbage", "ssh-pool:answer:abort", "ssh-pool:answer:die",
 		"proto:sessions:1", "proto:sessions:2+", "proto:held-consumed-later", "proto:large-then-small", "proto:held-repeat-id", "proto:held-on-several-sessions",
